@@ -244,7 +244,7 @@ def diff_with_model(prefix, comp):
                 break
     return diverge, len(ops)
 
-def run_micro(comp, seed, ncases, maxops, tag):
+def run_micro(comp, seed, ncases, maxops, tag, diff=True):
     rundir = os.path.join(CACHE, 'run')
     os.makedirs(rundir, exist_ok=True)
     prefix = os.path.join(rundir, f'{tag}-{comp}')
@@ -252,6 +252,10 @@ def run_micro(comp, seed, ncases, maxops, tag):
     if rc != 0:
         infra(f'microdiff {comp} failed rc={rc}:\n{out[-2000:]}')
     st = parse_stats(prefix + '.stats')
+    if not diff:
+        for suf in ('.ops', '.impl'):
+            os.unlink(prefix + suf)
+        return st, None
     diverge, _ = diff_with_model(prefix, comp)
     return st, diverge
 
@@ -392,6 +396,16 @@ def main():
                     st.setdefault('other_property_failures', []).append(f[:200])
                     continue
                 failing.append(dict(kind='microdiff-oracle', component=comp, key=key, what=f))
+        for comp in cfg.get('micro_panics', []):
+            # run for the reachability-class panic oracle only (harness/src/opclass.rs): no model comparison,
+            # only the keys that name this property count
+            q, t, maxops = P.MICRO[comp]
+            st, _ = run_micro(comp, seed, t if scale_thorough else q, maxops, f'{pid}-{tier}-panics', diff=False)
+            stats['panics:' + comp] = st
+            for f in st['oracle_fail']:
+                m = re.search(r'key=(\S+)', f)
+                if m and m.group(1).startswith(pid + '-'):
+                    failing.append(dict(kind='microdiff-oracle', component=comp, key=m.group(1), what=f))
         for b in cfg.get('bins', []):
             # stand-alone harness binaries: <bin> <seed> <n> <prefix> writing .ops/.impl/.stats
             name, qn, tn = b
